@@ -17,7 +17,7 @@ from .registry import THEOREMS_C10 as THEOREMS  # noqa: E402
 
 META = {
     "technique": "Lean 4 state-machine invariant over arbitrary crash/resume histories (model MDOut: HDF5 cursors, XYZ buffer, atomic checkpoint cell) + crash-history correspondence with real SIGKILL/exception injection",
-    "level_text": "Theorem resume_any_history: for every cadence configuration and every finite sequence of crashes (any step, any point inside the step's output/checkpoint sequence, exception or SIGKILL with arbitrary loss of unflushed data), resuming from the checkpoint and running to completion leaves exactly the files of an uninterrupted run; every intermediate disk satisfies the checkpoint invariant. The model is tied to the code by running the real engines (stub and real force engine) in child processes with crashes injected at the same points and diffing every HDF5 dataset label, XYZ frame and checkpoint step against the compiled model, segment by segment.",
+    "level_text": "Theorem resume_any_history: for every cadence configuration and every finite sequence of crashes (any step, any point inside the step's output/checkpoint sequence, exception or SIGKILL with arbitrary loss of unflushed data), resuming from the checkpoint and running to completion leaves exactly the files of an uninterrupted run; every intermediate disk satisfies the checkpoint invariant. The model is tied to the code by running the real engines (stub and real force engine) in child processes with crashes injected at the same points and diffing every HDF5 dataset label, XYZ frame and checkpoint step against the compiled model, segment by segment. Round 2 (C10b): value-level refinement - every written row holds the observation of the state at its label and the final files (values included) equal those of the uninterrupted run for every crash history, under the explicit hypothesis CkptComplete (load(save s) = s on reachable checkpoint states), whose audit against the real checkpoint code found F23-F25; a fifth (nonadiabatic) stream written inside the integrator step is covered; an incomplete checkpoint is proved to break resume.",
     "level_note": "Trusted: Lean kernel; harness (fork, SIGKILL, h5py/torch.load readers). Assumed, as explicit model structure: os.replace is atomic; a flushed HDF5 file stays openable after SIGKILL (library behaviour, validated in every hard-crash case, not proved); the dynamics is a deterministic function of the checkpointed state (validated bitwise against the reference run). Surface-hopping resume is outside the model (known finding F9: the repository's own resume test fails at this commit).",
     "design_ref": "DESIGN.md section 5 C10",
     "modelled": {"HDF5Writer._open_resume cursors": True, "XYZWriter append/truncate": True, "_flush_all + _atomic_save_checkpoint": True,
